@@ -726,6 +726,7 @@ pub fn import_err_code(e: &import::ImportError) -> u8 {
         E::Other(_) if t.contains("secondary_commodity field must be set") => 14,
         E::Other(_) if t.contains("secondary_amount should be specified") => 15,
         E::Other(_) if t.contains("cannot handle rate with the same commodity") => 16,
+        E::Other(_) if t.contains("cannot divide the amount by the rate") => 17,
         _ => 99,
     }
 }
@@ -839,7 +840,7 @@ pub fn gen_payee_text(r: &mut Rng) -> String {
         if r.chance(1, 5) {
             parts.push(format!("{}", r.below(100000)));
         } else {
-            let w = *r.pick(&WORDS);
+            let w = if r.chance(3, 4) { *r.pick(&WORDS[..5]) } else { *r.pick(&WORDS) };
             parts.push(recase(r, w));
         }
     }
@@ -858,7 +859,7 @@ pub fn gen_pat(r: &mut Rng, field: usize) -> Pat {
         &COMMODITIES
     };
     let word = |r: &mut Rng| -> String {
-        let w = *r.pick(vocab);
+        let w = if field == RF_PAYEE && r.chance(3, 4) { *r.pick(&vocab[..5]) } else { *r.pick(vocab) };
         let w = recase(r, w);
         // sometimes only a fragment of the word
         if r.chance(1, 4) && w.is_ascii() && w.len() > 2 {
